@@ -12,6 +12,7 @@
 From Coq Require Import NArith List String Bool.
 From P9V Require Import Base.Str gen.ConstGen gen.HandlerGen Server.State Server.Msg Server.Handlers
   Server.Summaries Server.NameProofs Server.SummaryProofs Server.FaultProofs Server.TableFrame Server.TableErr Server.Cases Server.FaultHist.
+From P9V Require Refs.Model Refs.Cases Refs.LifeStep Refs.ErrPaths.
 Import ListNotations.
 Open Scope N_scope.
 
@@ -70,6 +71,39 @@ Theorem C15_obtained_closed_partial : forall ga from node names w e w',
             closed_in (map fst (rev (w_log w'))) h = true.
 Proof. exact obtained_closed_partial. Qed.
 Print Assumptions C15_obtained_closed_partial.
+
+(** ... THE WHOLE-REQUEST STATEMENT, on the reference-count model of C05 (Refs/Model.v, the model whose state
+    carries exact reference counts; tied to the code by C05's differential with failures injected at every
+    backend call index): after EVERY history and for EVERY backend, a Twalk / Twalkgetattr / Tattach that is
+    answered with an error - a backend error at whichever of its calls, a wrong QID count, a non-directory
+    or deleted directory on the way, EBUSY, an unknown fid - has closed, exactly once, every File the
+    backend handed out during that request.  These are the only requests that can fail after obtaining a
+    File (Tlcreate obtains its File from the one call that can fail; Txattrwalk borrows the origin's File).
+    Hypotheses: no backend panic (the property's clause is about errors). *)
+Theorem C15_obtained_closed_walk : forall B bstep ops (b : B) c fid newfid names g,
+  let s := snd (Refs.Model.run B bstep ops (Refs.Model.init_state B b)) in
+  let r := Refs.Model.step B bstep (Refs.Model.OWalk c fid newfid names g) s in
+  Refs.Model.s_panic B s = false -> fst (fst r) <> 0%nat -> Refs.Model.s_panic B (snd r) = false ->
+  forall h, (Refs.Model.s_nexth B s <= h)%nat -> (h < Refs.Model.s_nexth B (snd r))%nat ->
+    Refs.Cases.close_count h (Refs.Model.s_log B (snd r)) = 1%nat.
+Proof.
+  intros B bstep ops b c fid newfid names g. cbv zeta.
+  destruct (Refs.LifeStep.history_life B bstep ops b) as (I & K & W & H).
+  intros Hp. exact (Refs.ErrPaths.walk_error_closes_all B bstep c fid newfid names g _ I K W (H Hp)).
+Qed.
+Print Assumptions C15_obtained_closed_walk.
+Theorem C15_obtained_closed_attach : forall B bstep ops (b : B) c fid names,
+  let s := snd (Refs.Model.run B bstep ops (Refs.Model.init_state B b)) in
+  let r := Refs.Model.step B bstep (Refs.Model.OAttach c fid names) s in
+  Refs.Model.s_panic B s = false -> fst (fst r) <> 0%nat -> Refs.Model.s_panic B (snd r) = false ->
+  forall h, (Refs.Model.s_nexth B s <= h)%nat -> (h < Refs.Model.s_nexth B (snd r))%nat ->
+    Refs.Cases.close_count h (Refs.Model.s_log B (snd r)) = 1%nat.
+Proof.
+  intros B bstep ops b c fid names. cbv zeta.
+  destruct (Refs.LifeStep.history_life B bstep ops b) as (I & K & W & H).
+  intros Hp. exact (Refs.ErrPaths.attach_error_closes_all B bstep c fid names _ I K W (H Hp)).
+Qed.
+Print Assumptions C15_obtained_closed_attach.
 
 (** requests refused from the session state (unsafe name, unbound fid, Tauth, auth-fid attach) are
     exact no-ops of the model: same state, no backend call -- nothing a fault could act on *)
